@@ -100,6 +100,27 @@ func (c *c05) Generate(env *kernel.Env, r *kernel.Rand, index int) any {
 		op.Commit = r.Chance(2, 3)
 		pr.Ops = append(pr.Ops, op)
 	}
+	// transactions: in one history out of three, one to three stretches of
+	// operations run inside a transaction that is committed or rolled back
+	if r.Chance(1, 3) && len(pr.Ops) >= 2 {
+		var ops []Op
+		open := false
+		for i, op := range pr.Ops {
+			if !open && r.Chance(1, 4) {
+				ops = append(ops, Op{Kind: "begin", Table: op.Table})
+				open = true
+			} else if open && r.Chance(1, 4) {
+				ops = append(ops, Op{Kind: "end", Table: op.Table, Commit: r.Chance(1, 2)})
+				open = false
+			}
+			ops = append(ops, op)
+			_ = i
+		}
+		if open {
+			ops = append(ops, Op{Kind: "end", Table: infos[0].Name, Commit: r.Chance(1, 2)})
+		}
+		pr.Ops = ops
+	}
 	pr.Ops = append(pr.Ops, Op{Kind: "checkall", Table: infos[0].Name})
 	if index%3 == 2 {
 		pr.Faults = kernel.Pick(r, []int{6, 12, 25})
@@ -153,6 +174,11 @@ func (c *c05) Execute(env *kernel.Env, raw json.RawMessage, ch *kernel.Choices) 
 			break
 		}
 	}
+	if h.tx != nil && h.viol == nil {
+		// (a shrunk history may have lost its "end")
+		h.end(true)
+		h.checkAll()
+	}
 	for k, n := range srv.FaultsFired {
 		if out.Faults == nil {
 			out.Faults = map[string]int64{}
@@ -205,7 +231,7 @@ func (c *c05) Shrink(raw json.RawMessage) []json.RawMessage {
 
 func (c *c05) Meta(env *kernel.Env) kernel.Meta {
 	return kernel.Meta{
-		Rule: "a run = one history of 1-40 abstract CRUD operations (insert, update, select, select many, select all, delete, delete many, by-foreign-key select/delete, unique lookups, select-key select/delete, custom query, link insert / InsertMany in a transaction with commit or rollback / delete, full cross-check) resolved against the live rows of a map reference model and executed through the generated functions on a fresh simulated database loaded from the generated schema; one third of the histories run with driver faults; distinct = distinct (program, call log); non-trivial = at least one call was made; by measure: distinct (function kind, table) pairs and distinct statement texts executed",
+		Rule: "a run = one history of 1-40 abstract CRUD operations (insert, update, select, select many, select all, delete, delete many, by-foreign-key select/delete, unique lookups, select-key select/delete, custom query, link insert / InsertMany in a transaction with commit or rollback / delete, full cross-check; in a third of the histories stretches of operations run inside one *sql.Tx that is committed or rolled back, the model following) resolved against the live rows of a map reference model and executed through the generated functions on a fresh simulated database loaded from the generated schema; one third of the histories run with driver faults; distinct = distinct (program, call log); non-trivial = at least one call was made; by measure: distinct (function kind, table) pairs and distinct statement texts executed",
 		Real: []string{"analysis + analysis/sql + generator/sql + generator/go/sqlcrud (current tree) produce schema and CRUD code", "the generated Go file, compiled unmodified", "database/sql", "x/tools/imports in place of the goimports binary"},
 		Stub: []string{"PostgreSQL (pgsim: parser, typed values, constraints, referential actions, transactions, COPY, driver, fault plane)", "github.com/lib/pq (stubs/pq: array text formats, NullTime, CopyIn)"},
 		Assumptions: []string{
